@@ -175,3 +175,15 @@ def sort_of(ty):
         if ty[0] == "map":
             return z3.ArraySort(sort_of(ty[1]), sort_of(ty[2]))
     raise TypeError(f"no sort for type {ty!r}")
+
+# ---- PDDLType heap: ancestor test along the parent chain -------------------------------------------
+# anc(N, P, r, nm): some type on the parent chain starting at r (inclusive) is named nm.
+_N = z3.Const("_N", z3.ArraySort(I, S))
+_P = z3.Const("_P", z3.ArraySort(I, I))
+_nm = z3.Const("_nm", S)
+anc = z3.RecFunction("anc", z3.ArraySort(I, S), z3.ArraySort(I, I), I, S, B)
+z3.RecAddDefinition(
+    anc, [_N, _P, _r, _nm],
+    z3.If(_r == 0, z3.BoolVal(False),
+          z3.If(z3.Select(_N, _r) == _nm, z3.BoolVal(True), anc(_N, _P, z3.Select(_P, _r), _nm))))
+RANK = z3.Const("G_rank", z3.ArraySort(I, I))     # ghost: well-founded measure of the parent relation
